@@ -42,5 +42,6 @@ CloneStep(regs, e) ==
               [] e.op = "shr_k" -> IShrFloor(regs[d], e.k)
               [] e.op = "sqr_self" -> LET sq == IMul(regs[d], regs[d]) IN IF Words(sq) > 60 THEN IShrFloor(sq, 3200) ELSE sq
               [] e.op = "sub_self" -> IZero
+              [] e.op = "panicked" -> regs[d]          \* a step that panicked must at least leave every register intact
   IN IF e.op = "init" THEN [i \in 1..NREG |-> IZero] ELSE [regs EXCEPT ![d] = nv]
 =============================================================================
